@@ -4,6 +4,7 @@ import (
 	"context"
 	"errors"
 	"fmt"
+	"github.com/libp2p/go-libp2p/x/verifhook"
 	"io"
 	"strings"
 	"sync"
@@ -440,6 +441,7 @@ func (s *Swarm) addConn(tc transport.CapableConn, dir network.Direction) (*Conn,
 		s.directConnNotifs.Unlock()
 	}
 
+	verifhook.AtArg("swarm.addConn.beforeAddConn", c)
 	// AddConn dispatches PeerConnectednessChanged and Notifiee.Connected before
 	// c.start() spawns the AcceptStream loop, so handlers see the conn before
 	// any inbound stream arrives.
@@ -544,6 +546,7 @@ func (s *Swarm) waitForDirectConn(ctx context.Context, p peer.ID) (*Conn, error)
 	ch := make(chan struct{})
 	s.directConnNotifs.m[p] = append(s.directConnNotifs.m[p], ch)
 	s.directConnNotifs.Unlock()
+	verifhook.AtArg("swarm.waitForDirectConn.registered", p)
 
 	// apply the DialPeer timeout
 	ctx, cancel := context.WithTimeout(ctx, network.GetDialPeerTimeout(ctx))
